@@ -39,8 +39,54 @@ pub fn subs() -> Vec<Box<dyn AnySub>> {
             check: check_multiset,
         }),
         Box::new(Sub { name: "raw", quick: 30_000, thorough: 600_000, strat: raw_query, check: check_raw }),
+        // the canonical query is the same under every option combination and scope label ('+' is a space everywhere)
+        Box::new(Sub {
+            name: "e2e-under-every-option",
+            quick: 15_000,
+            thorough: 200_000,
+            strat: || (raw_query(), any::<bool>(), any::<bool>(), any::<bool>(), any::<u16>()).prop_map(|(q, s3, fold, query_carrier, pick)| OptCase { query: q.query, s3, fold, query_carrier, pick }).boxed(),
+            check: check_opt,
+        }),
         Box::new(EnumSub { name: "many-parameters", exhaustive: true, list: many_list, check: check_many }),
     ]
+}
+
+#[derive(Clone, Debug, Serialize, Deserialize)]
+pub struct OptCase {
+    pub query: String,
+    pub s3: bool,
+    pub fold: bool,
+    pub query_carrier: bool,
+    pub pick: u16,
+}
+
+pub fn check_opt(oc: &OptCase, cc: &mut CaseCtx) -> CheckResult {
+    use crate::model::sign::{sign, SignSpec};
+    if oc.query.contains('#') {
+        return Ok(());
+    }
+    let base = WireRequest { method: "GET".into(), uri: format!("/?{}", oc.query), version: 11, headers: vec![("Host".into(), B::from("h.example"))], body: B::default() };
+    if crate::exec::build_http(&base).is_err() {
+        return Ok(());
+    }
+    let cfg = ServerConfig { fold: oc.fold, s3: oc.s3, region: REGIONS[pick_idx(oc.pick, REGIONS.len())].to_string(), service: SERVICES[pick_idx(oc.pick.rotate_left(5), SERVICES.len())].to_string(), ..ServerConfig::default() };
+    let spec = SignSpec::basic(if oc.query_carrier { Carrier::Query } else { Carrier::Header }, "AKIDEXAMPLE", "secret", "20150830T123600Z");
+    let Ok(signed) = sign(&base, &cfg, &spec) else {
+        cc.class("unsignable");
+        return Ok(());
+    };
+    let prov = ProviderScript { keys: vec![KeyEntry { access_key: "AKIDEXAMPLE".into(), token: None, secret: "secret".into(), derive_as: None, principal: PrincipalSpec::Empty, session: vec![] }], ..ProviderScript::default() };
+    let case = Case { req: signed.req, cfg, prov };
+    let (a, o) = (analyze(&case), crate::exec::run(&case));
+    if !a.verdict().is_specified() {
+        cc.unspecified = true;
+        return check_total(&o);
+    }
+    cc.class(if a.verdict().is_accept() { "accept" } else { "reject" });
+    cc.class_if(oc.s3, "s3-option");
+    cc.class_if(oc.query.contains('+'), "plus-in-query");
+    cc.nontrivial(digest_of(&[oc.query.as_bytes(), &[oc.s3 as u8, oc.fold as u8, oc.query_carrier as u8]]));
+    check_against_model(&a, &o)
 }
 
 #[derive(Clone, Debug, Serialize, Deserialize)]
@@ -91,13 +137,13 @@ pub fn check_many(m: &Many, cc: &mut CaseCtx) -> CheckResult {
     // end to end (URL and folded form body) where the request target can carry it
     if query.len() < 60_000 {
         use crate::model::sign::{sign, SignSpec};
-        for in_body in [false, true] {
+        for (in_body, s3) in [(false, false), (true, false), (false, true), (true, true)] {
             let mut base = WireRequest { method: if in_body { "POST".into() } else { "GET".into() }, uri: if in_body { "/".into() } else { format!("/?{}", query) }, version: 11, headers: vec![("Host".into(), B::from("h.example"))], body: B::default() };
             if in_body {
                 base.headers.push(("Content-Type".into(), B::from("application/x-www-form-urlencoded")));
                 base.body = B::from(query.as_str());
             }
-            let cfg = ServerConfig { fold: in_body, ..ServerConfig::default() };
+            let cfg = ServerConfig { fold: in_body, s3, service: if s3 { "s3".into() } else { "service".into() }, ..ServerConfig::default() };
             let spec = SignSpec::basic(Carrier::Header, "AKIDEXAMPLE", "secret", "20150830T123600Z");
             let Ok(signed) = sign(&base, &cfg, &spec) else { continue };
             let prov = ProviderScript { keys: vec![KeyEntry { access_key: "AKIDEXAMPLE".into(), token: None, secret: "secret".into(), derive_as: None, principal: PrincipalSpec::Empty, session: vec![] }], ..ProviderScript::default() };
